@@ -4,6 +4,7 @@ use std::ops::{Add, Deref, Sub};
 //@include _prelude.rs
 
 verus! {
+//@include _panic.rs
 
 // ---- environment (declarations only) ------------------------------------------------
 /// stand-in for `localtime::LocalTime` (external crate): a millisecond counter.
